@@ -213,6 +213,13 @@ def fields(**kw):
         REG.fields[k] = v
 
 
+def none_sentinel(obj):
+    """A sentinel object that an optional-int field may hold instead of an integer: modelled as the None of `optint`."""
+    if not hasattr(REG, "none_sentinels"):
+        REG.none_sentinels = []
+    REG.none_sentinels.append(obj)
+
+
 def tuple_fields(**kw):
     """Names of the positions of fixed-arity sequence types (namedtuples): slice.Y is slice[0]."""
     if not hasattr(REG, "tuple_fields"):
